@@ -361,7 +361,7 @@ def rule_G(ctx):
         'co_min': lambda vs: min(vs) if vs else NANV, 'co_max': lambda vs: max(vs) if vs else NANV,
         'co_avg': lambda vs: sum(vs) / len(vs) if vs else NANV, 'co_median': lambda vs: median(vs) if vs else NANV,
     }
-    lists = [list(t_) for L in range(0, 5) for t_ in itertools.product((NANV, 1.0, 3.0, -2.0), repeat=L)]
+    lists = [list(t_) for L in range(0, 6 if ctx.tier == 'thorough' else 5) for t_ in itertools.product((NANV, 1.0, 3.0, -2.0), repeat=L)]
     for name, orc in oracle.items():
         f = ctx.prog.maybe_func(UT + '.' + name)
         if f is None:
